@@ -8,6 +8,7 @@ import (
 	"math/big"
 	"net/http"
 	"net/http/httptest"
+	"os"
 	"sort"
 	"strings"
 	"time"
@@ -455,20 +456,19 @@ func Run(tier string, sh lib.Shard, rep *lib.Report) {
 		rep.Require("rejected_requests_probed", "free_rejection_probes", "advertised_waits_checked", "regain_probes")
 	}
 	var results []string
-	for i, cfg := range configs(tier) {
-		if !sh.Mine(i) {
-			continue
-		}
+	gang := os.Getenv("VERIF_GANG_DIR")
+	for _, cfg := range configs(tier) {
+		// every configuration is explored by all workers together (distributed BFS by state hash)
 		m := model(cfg, tier, true, 0)
 		m.MaxStates = cap
-		r := m.Run(rep)
+		r := m.RunDistributed(rep, sh, gang)
 		results = append(results, m.Name+": "+r.Describe())
 		rep.Sample(2, map[string]any{"model": m.Name, "result": r.Describe()})
 		if r.Complete {
 			rep.Count("configs_explored_to_fixpoint")
 		}
 		m2 := model(cfg, tier, false, exactDepth)
-		r2 := m2.Run(rep)
+		r2 := m2.RunDistributed(rep, sh, gang)
 		results = append(results, m2.Name+": "+r2.Describe())
 	}
 	rep.Bounds["searches"] = results
